@@ -683,7 +683,15 @@ type resultBuilder struct {
 	v6done bool
 }
 
-func (r *resultBuilder) parseMsg(msg []byte, isUDP bool) (dnsmessage.Header, error) {
+func (r *resultBuilder) parseMsg(msg []byte, isUDP bool) (_ dnsmessage.Header, retErr error) {
+	// A message that is rejected must not leave its TTLs behind.
+	savedExpiresAt := r.expiresAt
+	defer func() {
+		if retErr != nil {
+			r.expiresAt = savedExpiresAt
+		}
+	}()
+
 	now := time.Now()
 	var parser dnsmessage.Parser
 
@@ -728,7 +736,10 @@ func (r *resultBuilder) parseMsg(msg []byte, isUDP bool) (dnsmessage.Header, err
 	case dnsmessage.RCodeFormatError, dnsmessage.RCodeServerFailure,
 		dnsmessage.RCodeNotImplemented, dnsmessage.RCodeRefused:
 		// RFC 9520 resolution failure caching.
-		r.expiresAt = now.Add(rcodeFailureCachingDuration)
+		// Do not extend the lifetime of what the other response has already set.
+		if failureExpiresAt := now.Add(rcodeFailureCachingDuration); r.expiresAt.IsZero() || r.expiresAt.After(failureExpiresAt) {
+			r.expiresAt = failureExpiresAt
+		}
 	default:
 		return dnsmessage.Header{}, fmt.Errorf("unknown RCode: %d", header.RCode)
 	}
